@@ -313,6 +313,20 @@ example : clsOf (build table (st "module" "m" [st "namespace" "n", st "prefix" "
 example : topCls (parseTop table (fun _ _ => false) [st "container" "c"]) = some .notModule := by decide +kernel
 example : topCls (parseTop table (fun _ _ => false) [goodModule, st "foo" "x"]) = some .unknownStmt := by decide +kernel
 
+-- an extension statement whose local name is that of the mandatory substatement does not stand in for it
+example : clsOf (build table (st "leaf" "x" [st "d2:type" "string"]) none) = some .missing := by decide +kernel
+example : clsOf (build table (st "module" "m" [st "prefix" "m", st "m:namespace" "urn:m"]) none)
+    = some .missing := by decide +kernel
+example : accepts table (st "leaf" "x" [st "d2:type" "string"]) = false := by decide +kernel
+example : okB (build table (st "leaf" "x" [st "d2:type" "int8", st "type" "string"]) none) = true := by
+  decide +kernel
+
+-- Modules.add refuses a module name with '@' (registry rule, fix b0bffce), after the kind check
+example : topCls (parseTop table (fun _ _ => false) [st "module" "a@b" [st "namespace" "n", st "prefix" "p"]])
+    = some .badName := by decide +kernel
+example : topCls (parseTop table (fun _ _ => false) [st "container" "a@b"]) = some .notModule := by
+  decide +kernel
+
 -- the witnesses of the repaired defects D1 / D2 are now plain rejections
 example : clsOf (build table (st "foo" "x") none) = some .unknownStmt := by decide +kernel
 example : clsOf (build table (st "module" "m" [st "namespace" "n", st "prefix" "p", st "Parent" "x"]) none)
